@@ -126,11 +126,15 @@ def _has_invalid_pin_cite(
 
     # if full cite has no page (such as a statute), we don't know what to
     # check, so assume we're fine
-    if not full_cite.groups.get("page", "").isdigit():
+    if not (full_cite.groups.get("page") or "").isdigit():
         return False
 
     # parse full cite page
-    page = int(full_cite.groups["page"])
+    try:
+        page = int(full_cite.groups["page"])
+    except ValueError:
+        # more digits than int() accepts: no page number to compare against
+        return False
 
     # parse short cite pin
     m = re.match(r"(?:at )?(\d+)", id_cite.metadata.pin_cite)
